@@ -1,11 +1,13 @@
 /* C06 / C02 - pass sequencing and the cursor protocol of a pass.
  *   Silf::runGraphite (src/Silf.cpp)                  unit c06_silf_run        (proof, loop contract)
  *   Segment::finalise direction clause (Segment.h)    unit c06_finalise_dir    (proof)
- * Pass.cpp units are further down (PASS section).
+ *   Pass::testConstraint, doAction, testPassConstraint, runGraphite outside its rule loop (src/Pass.cpp)   proof units
+ *   Pass::adjustSlot, SlotMap::collectGarbage (src/Pass.cpp)   bounded slot-universe units (spec/slots.tc)
+ * Not here (covered elsewhere): the rule do-loop (c02_rule_loop), findNDoRule (c06_find), runFSM (c02_run_fsm), reverseSlots (c03_reverse).
  */
 #include "types.h"
 
-/*@unit {'name':'c06_silf_run', 'props':['DEV_passrun'], 'final_props':['C06','C02'], 'entry':'h_silf', 'enforce':'Silf_runGraphite', 'min_loops':1, 'defines_quick':['SILF','NPMAX=40'], 'defines_thorough':['SILF','NPMAX=128'],
+/*@unit {'name':'c06_silf_run', 'props':['C06','C02'], 'entry':'h_silf', 'enforce':'Silf_runGraphite', 'min_loops':1, 'defines_quick':['SILF','NPMAX=40'], 'defines_thorough':['SILF','NPMAX=128'],
   'assumptions':['Pass::runGraphite is a ghost model with a body (asserts = its call-site obligations; effect: may reverse the stream when asked to, may change the slot count, the machine status and its verdict arbitrarily); its head is unit c06_pass_head',
                  'Segment::reverseSlots is a stub that flips the reversed flag (bit 6 of m_dir) - its real body is unit c03_reverse; Segment::doMirror is a stub with a call counter',
                  'call sites (Face::runGraphite, Segment::justify) + loader (Silf::readGraphite): firstPass, lastPass <= m_numPasses <= 128, m_bPass == 0xFF or <= m_numPasses; slot count at entry <= SIZE_MAX / 64',
@@ -171,30 +173,33 @@ void h_silf(void)
 #endif /* SILF */
 
 /* ================================================================== Pass.cpp: the cursor protocol of one pass */
-/*@unit {'name':'c06_test_constraint', 'props':['DEV_passrun'], 'final_props':['C06','C02'], 'entry':'h_tc', 'enforce':'Pass_testConstraint', 'min_loops':1, 'defines':['PASS','TC'],
+/*@unit {'name':'c06_test_constraint', 'props':['C06','C02'], 'entry':'h_tc', 'enforce':'Pass_testConstraint', 'min_loops':1, 'defines':['PASS','TC'],
   'assumptions':['Machine::Code::run is a ghost model with a body (asserts = call-site obligations; verdict and machine status from a truth table indexed by the map position); constraint code cannot move the map cursor (no constraint implementation of NEXT / COPY_NEXT / INSERT / DELETE in opcode_table.h: units c02_fetch_opcode / c07), so the model leaves it alone',
                  'SlotMap::m_size <= MAX_SLOTS (unit c02_run_fsm)'],
   'claims':'Pass::testConstraint: a rule is refused without running code when its pre-context exceeds the context of the map, when it does not fit into the slots the FSM matched, or when its last slot is missing; every map cell it reads lies inside SlotMap::m_slot_map; the constraint code is run once per non-NULL matched slot, in stream order, at map positions context-preContext .. +sort-1 only, on a healthy machine; the result is true exactly when every run yields non-zero and leaves the machine healthy (a rule without constraint code is accepted); the first failing run ends the test; the loop terminates'}@*/
-/*@unit {'name':'c06_do_action', 'props':['DEV_passrun'], 'final_props':['C06','C02'], 'entry':'h_da', 'enforce':'Pass_doAction', 'defines':['PASS','DA'], 'unwind':8,
+/*@unit {'name':'c06_do_action', 'props':['C06','C02'], 'entry':'h_da', 'enforce':'Pass_doAction', 'defines':['PASS','DA'], 'unwind':8,
   'assumptions':['Machine::Code::run is a ghost model with a body (moves the map cursor anywhere inside the slot map, stores the current slot there as Machine::run does, arbitrary verdict and status)',
                  'm_precontext <= m_size <= MAX_SLOTS (units c02_run_fsm, c06_test_constraint)'],
   'claims':'Pass::doAction: an empty action returns 0 and touches nothing; otherwise the passed flag is cleared, the action code is run exactly once with the map cursor on the rule position (cell context of the slot map); when the machine fails the cursor is set to NULL, the high-water mark is dropped and 0 is returned; otherwise the cursor becomes the slot the action left under the map cursor and the advance the code returned is handed on unchanged'}@*/
-/*@unit {'name':'c06_pass_constraint', 'props':['DEV_passrun'], 'final_props':['C06','C02'], 'entry':'h_pc', 'enforce':'Pass_testPassConstraint', 'defines':['PASS','PC'], 'unwind':8,
+/*@unit {'name':'c06_pass_constraint', 'props':['C06','C02'], 'entry':'h_pc', 'enforce':'Pass_testPassConstraint', 'defines':['PASS','PC'], 'unwind':8,
   'assumptions':['Machine::Code::run is a ghost model with a body (arbitrary verdict and status, no cursor movement: constraint code)', 'call site Pass::runGraphite: the segment has a first slot'],
   'claims':'Pass::testPassConstraint: a pass without constraint is accepted without touching the slot map; otherwise the slot map is reset to exactly one slot, the first slot of the stream, with no pre-context (cell 0 = its predecessor), the constraint is run once at that slot, and the pass is accepted iff the code yields non-zero and the machine stays healthy'}@*/
-/*@unit {'name':'c06_pass_head', 'props':['DEV_passrun'], 'final_props':['C06','C02'], 'entry':'h_ph', 'enforce':'Pass_runGraphite', 'defines':['PASS','PH'], 'unwind':8,
+/*@unit {'name':'c06_pass_head', 'props':['C06','C02'], 'entry':'h_ph', 'enforce':'Pass_runGraphite', 'defines':['PASS','PH'], 'unwind':8,
   'assumptions':['the rule do-loop is cut out (R13) and replaced by a ghost model with its entry obligations - the loop itself is unit c02_rule_loop, its body findNDoRule unit c06_find',
                  'testPassConstraint (unit c06_pass_constraint), Segment::reverseSlots (unit c03_reverse), positionSlots, collisionShift / collisionKern / collisionFinish, hasCollisionInfo are ghost models with a call log'],
   'claims':'Pass::runGraphite outside its rule loop: an empty stream or a failing pass constraint leaves everything alone (no reversal, no rule, no collision work) and reports success; the stream is reversed exactly when asked to, once, before any rule runs; rules run iff the pass has rules, starting at the first slot of the (possibly reversed) stream with the high-water mark on the slot after it and the passed flag clear; a failed rule loop ends the pass with false; collision fixing runs only when the pass declares collision or kerning loops and the segment carries collision data, in the order position (only if not yet initialised) - shift - kern - finish, each at most once, and any failure is reported'}@*/
-/*@unit {'name':'c06_adjust_slot', 'props':['DEV_passrun'], 'final_props':['C06','C02'], 'entry':'h_adj', 'kind':'bounded', 'defines_quick':['PASS','ADJ','NSLOTS=3'], 'defines_thorough':['PASS','ADJ','NSLOTS=4'],
+/*@unit {'name':'c06_adjust_slot', 'props':['C06','C02'], 'entry':'h_adj', 'kind':'bounded', 'defines_quick':['PASS','ADJ','NSLOTS=3'], 'defines_thorough':['PASS','ADJ','NSLOTS=4'],
   'unwind_quick':8, 'unwind_thorough':9, 'bound':'pool of 3 (quick) / 4 (thorough) slots, every well-formed stream, every cursor (a slot of the stream or NULL), every high-water mark (any pool slot or NULL), delta in [-NSLOTS-2, NSLOTS+2]',
   'claims':'Pass::adjustSlot: the cursor ends exactly delta positions from where it was (a NULL cursor counts as the position after the last slot when the high-water mark was passed or is NULL too, else as the position before the first slot), NULL when that leaves the stream; NULL is never dereferenced; the stream and the high-water mark are not written; the passed flag is set when the cursor moves forward off the high-water mark and cleared when it moves back onto it, as coded'}@*/
-/*@unit {'name':'c06_collect_garbage', 'props':['DEV_passrun'], 'final_props':['C06','C03'], 'entry':'h_gc', 'kind':'bounded', 'defines_quick':['PASS','GC','NSLOTS=3','MS=3'], 'defines_thorough':['PASS','GC','NSLOTS=4','MS=4'],
+/*@unit {'name':'c06_collect_garbage', 'props':['C06','C03'], 'entry':'h_gc', 'kind':'bounded', 'defines_quick':['PASS','GC','NSLOTS=3','MS=3'], 'defines_thorough':['PASS','GC','NSLOTS=4','MS=4'],
   'unwind_quick':6, 'unwind_thorough':7, 'bound':'pool of 3 / 4 slots, slot map with 1 .. 3 / 4 cells in use naming any pool slots (repeats allowed), any deleted / copied marks, any cursor',
   'assumptions':['Segment::freeSlot is a ghost model (clears the marks and links of the slot, pushes it on the free list, moves first/last off it); its real body is verified in the C03/C04 freeSlot units',
                  'the prev/next links of a slot that is freed in this call do not lead to another slot freed in this call (delete_ repairs the neighbours of each slot it unlinks)',
                  'call site findNDoRule: the map holds at least one slot (m_size >= 1) - with m_size == 0 the loop bound end()-1 lies before begin()'],
   'claims':'SlotMap::collectGarbage frees exactly the slots marked deleted or copied that are named by cells 1 .. m_size-1 of the slot map (never the trailing slot, never cell 0, never a live slot), each once even if named twice; a cursor on a freed slot moves to the predecessor it had, else its successor, and ends on a slot that is not freed; any other cursor, the map cells and the map size are not written; every cell read lies inside the map'}@*/
+/*@unit {'name':'c06_finalise_dir', 'props':['C06','C19'], 'entry':'h_fin', 'enforce':'Segment_finalise', 'defines':['PASS','FIN'], 'unwind':8,
+  'assumptions':['positionSlots, reverseSlots (unit c03_reverse), linkClusters and Silf::dir are ghost models with a call log'],
+  'claims':'Segment::finalise (the step after the last pass): when the caller asks for it the stream is turned round at most once, after the final positions were computed, so that at return its direction equals the requested one (reversed flag xor direction bit = direction bit); only the reversed flag of m_dir changes; an empty stream is left alone; clusters are linked last, over the stream as handed out'}@*/
 
 #ifdef PASS
 /*@include slots.tc@*/
@@ -235,6 +240,7 @@ typedef struct FiniteStateMachine { SlotMap *slots; void *dbgout; } FiniteStateM
 bool nondet_bool(void); unsigned nondet_unsigned(void); int32 nondet_int32(void);
 Machine *g_m; SlotMap *g_sm; const Pass *g_pass;
 #define CELL(k) (&g_sm->m_slot_map[k])
+#define TICK(x, what) { __CPROVER_assert((x) == 0, what ": at most once"); g_seq = g_seq + 1; (x) = g_seq; }
 
 /* ------------------------------------------------------------------ testConstraint */
 #ifdef TC
@@ -385,7 +391,6 @@ unsigned g_seq;                                              /* call clock */
 unsigned g_at_pc, g_at_rev, g_at_loop, g_at_pos, g_at_shift, g_at_kern, g_at_fin;    /* time of the (single) call, 0 = not called */
 bool g_pc_ok, g_loop_ok, g_shift_ok, g_kern_ok, g_fin_ok, g_hascoll, g_reverse;
 Segment *g_seg; Slot *g_first0, *g_newfirst; FiniteStateMachine *g_fsm;
-#define TICK(x, what) { __CPROVER_assert((x) == 0, what ": at most once"); g_seq = g_seq + 1; (x) = g_seq; }
 static bool Pass_testPassConstraint(const Pass *self, Machine *m)
 {
     TICK(g_at_pc, "testPassConstraint");
@@ -570,4 +575,49 @@ void h_gc(void)
     CANARY();
 }
 #endif /* GC */
+
+/* ------------------------------------------------------------------ Segment::finalise: the reversal that restores the requested direction */
+#ifdef FIN
+unsigned g_seq, g_at_pos, g_at_rev, g_at_link; Segment *g_seg; Slot *g_first0, *g_last0; int8 g_dir0; Position g_adv; uint8 g_silfdir;
+#define CURRDIR(sg)   ((((sg)->m_dir >> 6) ^ (sg)->m_dir) & 1)        /* spec: reversed flag (bit 6) xor requested direction (bit 0) */
+static uint8 Silf_dir_0(const Silf *sf) { (void)sf; return g_silfdir; }
+static Position Segment_positionSlots_5(Segment *sg, const void *font, Slot *a, Slot *b, bool rtl, bool final)
+{
+    TICK(g_at_pos, "positionSlots");
+    __CPROVER_assert(sg == g_seg && a == g_first0 && b == g_last0 && final && rtl == (g_silfdir != 0) && g_at_rev == 0, "final positions over the whole stream, in the direction of the font, before the stream is turned round");
+    return POS0;
+}
+static void Segment_reverseSlots_0(Segment *sg)
+{
+    TICK(g_at_rev, "reverseSlots");
+    sg->m_dir = sg->m_dir ^ 64; Slot *t = sg->m_first; sg->m_first = sg->m_last; sg->m_last = t;             /* unit c03_reverse */
+}
+static void Segment_linkClusters_2(Segment *sg, Slot *a, Slot *b)
+{
+    TICK(g_at_link, "linkClusters");
+    __CPROVER_assert(sg == g_seg && a == sg->m_first && b == sg->m_last, "clusters are linked over the stream as it is handed out");
+}
+void Segment_finalise(Segment *self, const void *font, bool reverse)
+__CPROVER_requires(self == g_seg && self->m_first == g_first0 && self->m_last == g_last0 && self->m_dir == g_dir0 && g_seq == 0 && g_at_pos == 0 && g_at_rev == 0 && g_at_link == 0)
+__CPROVER_assigns(self->m_dir, self->m_first, self->m_last, g_adv, g_seq, g_at_pos, g_at_rev, g_at_link)
+/* at return the stream runs in the direction the caller asked for */
+__CPROVER_ensures((g_first0 && g_last0 && reverse) ==> CURRDIR(self) == (self->m_dir & 1))
+__CPROVER_ensures(((self->m_dir ^ g_dir0) & ~64) == 0 && (!reverse ==> self->m_dir == g_dir0))
+__CPROVER_ensures((g_first0 && g_last0) ==> (g_at_pos != 0 && g_at_link != 0 && g_at_pos < g_at_link && (g_at_rev == 0 || (g_at_pos < g_at_rev && g_at_rev < g_at_link))))
+__CPROVER_ensures(!(g_first0 && g_last0) ==> (g_seq == 0 && self->m_dir == g_dir0));
+/*@extract {'if':'FIN', 'file':'src/inc/Segment.h', 'sig': r'void Segment::finalise\(const Font \*font, bool reverse\)', 'emit':'void Segment_finalise(Segment *self, const void *font, bool reverse)',
+   'subs':[[r'm_advance = ', 'g_adv = ', 0], [r'm_silf->dir\(\)', 'Silf_dir_0(m_silf)', 0], [r'\bcurrdir\(\)', 'Segment_currdir_0(self)', 0], [r'\breverseSlots\(\)', 'Segment_reverseSlots_0(self)', 0],
+           [r'\bpositionSlots\(', 'Segment_positionSlots_5(self, ', 0], [r'\blinkClusters\(', 'Segment_linkClusters_2(self, ', 0]],
+   'self':['m_first','m_last','m_dir','m_silf']}@*/
+void h_fin(void)
+{
+    havoc_links();
+    Segment *sg = malloc(sizeof(Segment)); __CPROVER_assume(sg);
+    sg->m_first = pick_slot(); sg->m_last = pick_slot();
+    g_seg = sg; g_first0 = sg->m_first; g_last0 = sg->m_last; g_dir0 = sg->m_dir; g_silfdir = nondet_bool() ? 1 : 0;
+    g_seq = 0; g_at_pos = g_at_rev = g_at_link = 0;
+    Segment_finalise(sg, (void *)0, nondet_bool());
+    CANARY();
+}
+#endif /* FIN */
 #endif /* PASS */
